@@ -128,6 +128,10 @@ def main(argv=None):
     wall = time.time() - t0
     merged["counters"]["known_finding_witnesses"] = sum(len(v) for v in known.values())
     status = "violated" if unknown else ("inconclusive" if (merged["inconclusive"] or floors_failed) else "held")
+    if a.replay:
+        # a replay decides one recorded case; it never rewrites the evidence of the check
+        print(f"{prop} replay: {'violated' if unknown else 'not reproduced / held'}; evaluations={merged['evaluations']}")
+        return 1 if unknown else 0
     try:
         write_evidence(
             prop, mod.LEVEL, a.tier, a.seed, merged, mod.RULE, wall,
@@ -155,6 +159,8 @@ if __name__ == "__main__":
         rc = main()
     except SystemExit:
         raise
+    except BrokenPipeError:
+        rc = 1
     except BaseException:  # a broken harness is never a verdict
         import traceback
 
